@@ -247,7 +247,13 @@ class AbstractStrategy(
     def __eq__(self, other: object) -> bool:
         if not isinstance(other, AbstractStrategy):
             return NotImplemented
-        return self.__class__ == other.__class__ and self.__dict__ == other.__dict__
+
+        def settings(strategy: AbstractStrategy) -> dict:
+            # an instance created from a subscripted alias, e.g. EmptyStrategy[A, B](),
+            # carries the alias in __orig_class__; it is not a setting
+            return {k: v for k, v in vars(strategy).items() if k != "__orig_class__"}
+
+        return self.__class__ == other.__class__ and settings(self) == settings(other)
 
     def __repr__(self):
         return (
